@@ -11,14 +11,17 @@ package command
 // timeout with a 3-5 s limit where a lost option means 5-10 s).
 
 import (
+	"bufio"
 	"bytes"
 	"context"
 	"fmt"
 	"io"
 	"net"
+	"net/http"
 	"os"
 	"strings"
 	"sync"
+	"syscall"
 	"time"
 
 	"github.com/spf13/cobra"
@@ -372,5 +375,143 @@ func appProxyCases(c *drv.Ctx) {
 	}
 	for _, v := range []string{"HTTP_PROXY", "http_proxy", "HTTPS_PROXY", "https_proxy", "ALL_PROXY", "all_proxy"} {
 		os.Unsetenv(v)
+	}
+}
+
+// ---- many responding hosts through ONE scanner with few file descriptors to spare ----
+
+func init() {
+	drv.Register("c10many", verifAppMany)
+}
+
+func appOpenFDs() int {
+	ents, err := os.ReadDir("/proc/self/fd")
+	if err != nil {
+		return -1
+	}
+	return len(ents)
+}
+
+// verifAppMany: a scan meets many hosts that DO answer; every one of them must be reported, however
+// many came before it. One listener serves all of 127.0.0.0/8; the soft RLIMIT_NOFILE is lowered to
+// 64 above what the process has open, so a scanner that keeps a connection (or anything else) per
+// probed host runs dry after a few dozen hosts instead of after tens of thousands.
+func verifAppMany(c *drv.Ctx) {
+	c.R.Rule = "elastic (GET / and /_aliases answered with JSON objects) and docker (/_ping, /info, /version answered), http: 300 distinct loopback addresses served by one listener are probed one after the other through ONE scanner built by the command's options, with the soft RLIMIT_NOFILE lowered to 64 above the descriptors in use; every address must be reported. non-trivial = scanner"
+	var lim syscall.Rlimit
+	if err := syscall.Getrlimit(syscall.RLIMIT_NOFILE, &lim); err != nil {
+		c.Infra("getrlimit: %v", err)
+		return
+	}
+	for _, which := range []string{"elastic", "docker"} {
+		ln, err := net.Listen("tcp4", "0.0.0.0:0")
+		if err != nil {
+			c.Infra("listen: %v", err)
+			return
+		}
+		port := ln.Addr().(*net.TCPAddr).Port
+		go func() {
+			for {
+				conn, err := ln.Accept()
+				if err != nil {
+					return
+				}
+				go func(conn net.Conn) {
+					// serve requests on this connection for as long as the client keeps it (keep-alive aware)
+					defer conn.Close()
+					br := bufio.NewReader(conn)
+					for {
+						req, err := http.ReadRequest(br)
+						if err != nil {
+							return
+						}
+						body := `{"cluster_name":"c","ID":"abc","Version":"20.10"}`
+						fmt.Fprintf(conn, "HTTP/1.1 200 OK\r\nContent-Type: application/json\r\nApi-Version: 1.41\r\nContent-Length: %d\r\n\r\n%s", len(body), body)
+						if req.Close {
+							return
+						}
+					}
+				}(conn)
+			}
+		}()
+		const hosts = 300
+		var list strings.Builder
+		for k := 1; k <= hosts; k++ {
+			fmt.Fprintf(&list, "{\"ip\":\"127.0.%d.%d\",\"port\":%d}\n", k>>8, k&255, port)
+		}
+		tf, _ := os.CreateTemp("", "verif-c10many-*.jsonl")
+		tf.WriteString(list.String())
+		tf.Close()
+		defer os.Remove(tf.Name())
+		args := []string{"-t", "2s", "--exit-delay", "10ms", "-w", "1", "-f", tf.Name()}
+		ctx, cancel := context.WithCancel(context.Background())
+		var engine scan.EngineResulter
+		var r *scan.Range
+		switch which {
+		case "elastic":
+			cm := newElasticCmd()
+			cm.cmd.SetOut(io.Discard)
+			cm.cmd.SetErr(io.Discard)
+			if err = cm.cmd.ParseFlags(args); err == nil {
+				if err = cm.opts.parseRawOptions(); err == nil {
+					if r, err = cm.opts.parseScanRange(cm.cmd.Flags().Args()); err == nil {
+						engine = cm.opts.newElasticScanEngine(ctx)
+					}
+				}
+			}
+		case "docker":
+			cm := newDockerCmd()
+			cm.cmd.SetOut(io.Discard)
+			cm.cmd.SetErr(io.Discard)
+			if err = cm.cmd.ParseFlags(args); err == nil {
+				if err = cm.opts.parseRawOptions(); err == nil {
+					if r, err = cm.opts.parseScanRange(cm.cmd.Flags().Args()); err == nil {
+						engine = cm.opts.newDockerScanEngine(ctx)
+					}
+				}
+			}
+		}
+		if err != nil || engine == nil {
+			c.Infra("%s: options refused: %v", which, err)
+			cancel()
+			ln.Close()
+			continue
+		}
+		low := syscall.Rlimit{Cur: uint64(appOpenFDs() + 64), Max: lim.Max}
+		if low.Cur > lim.Cur {
+			low.Cur = lim.Cur
+		}
+		syscall.Setrlimit(syscall.RLIMIT_NOFILE, &low)
+		lg := &appCapLogger{}
+		done := make(chan struct{})
+		go func() {
+			startScanEngine(ctx, engine, newEngineConfig(withLogger(lg), withScanRange(r), withExitDelay(10*time.Millisecond)))
+			close(done)
+		}()
+		select {
+		case <-done:
+		case <-time.After(90 * time.Second):
+			cancel()
+			<-done
+		}
+		lg.mu.Lock()
+		missing := hosts - len(lg.results)
+		firstErr := ""
+		if len(lg.errs) > 0 {
+			firstErr = lg.errs[0]
+		}
+		firstMissing := fmt.Sprintf("after %d reported hosts", len(lg.results))
+		lg.mu.Unlock()
+		syscall.Setrlimit(syscall.RLIMIT_NOFILE, &lim)
+		cancel()
+		ln.Close()
+		c.Eval(hosts)
+		c.Nontrivial(1)
+		if missing > 0 {
+			c.Fail("appmany:"+which, fmt.Sprintf("%s: %d of %d answering hosts were not reported when probed one after the other through one scanner with 64 spare file descriptors; first: %s, error %s", which, missing, hosts, firstMissing, firstErr), map[string]any{"part": "c10many", "scanner": which})
+			continue
+		}
+		c.Outcome(which + ":all-reported")
+		c.Sample(map[string]any{"scanner": which, "hosts": hosts, "spare_descriptors": 64})
 	}
 }
